@@ -62,6 +62,7 @@ def gen_scope(ctx, tag, nnode, maxfaces, sizes, npat=1, invs=INVS):
     return out
 
 
+SCALE_EXPS = [-40, -30, -20, 0, 20, 40]  # EdgeOps.ScaleExps: rows scaled by 2^e (about 1e-12 .. 1e12), exact in floating point
 LAYOUTS = []  # the layouts TLC enumerated (AggLayout.tla, shared with C17): position of the grid dim, other sizes
 
 
@@ -95,6 +96,12 @@ def shape_case(cid, k, mesh, n_node, xrows4, yrows4, layout=None, **extra):
         "pos": lay["pos"],
         "via": "topology",
     }
+    # magnitudes (float data): every row scaled by the same 2^e, or each leading index by its own
+    if dtype == "float":
+        if (k // 12) % 3 == 1:
+            c["sexp"] = [SCALE_EXPS[(k // 36) % len(SCALE_EXPS)]] * nrow
+        elif (k // 12) % 3 == 2:
+            c["sexp"] = [SCALE_EXPS[(k + j) % len(SCALE_EXPS)] for j in range(nrow)]
     c.update(extra)
     return c
 
@@ -136,6 +143,29 @@ def proj(x, tol_rel=0.0, maxden=4096):
     if len(_MEMO) < 200000:
         _MEMO[key] = r
     return r
+
+
+def projs(x, exps, tol_rel, maxden):
+    """Like projx for an inexact value known to be (a small multiple of 1/2) * 2^e for one of the record's exponents:
+    the exponent is the one that brings |x| into [0.4, 600) (the exponents are >= 2^10 apart), so that the tolerance
+    still separates neighbouring half-integers."""
+    x = float(x)
+    if x != 0.0 and math.isfinite(x):
+        for e in exps:
+            y = math.ldexp(x, -e)
+            if 0.4 <= abs(y) < 600.0:
+                return proj(y, tol_rel, maxden) + [e]
+    return projx(x, tol_rel, maxden)
+
+
+def projx(x, tol_rel=0.0, maxden=4096):
+    """float -> [p, q, flags, k] with x = p / q * 2^k: the value is first brought to about 2^17..2^18 by an exact
+    power of two, so that tiny and huge magnitudes keep all their digits; zero stays [0, 1, 3, 0]."""
+    x = float(x)
+    if x == 0.0 or not math.isfinite(x):
+        return proj(x, tol_rel, maxden) + [0]
+    k = math.frexp(x)[1] - 18
+    return proj(math.ldexp(x, -k), tol_rel, maxden) + [k]
 
 
 # ----------------------------------------------------------------------------- synthetic MPAS source
@@ -218,6 +248,17 @@ def mpas_dataset(case):
             "dcEdge": (("nEdges",), np.array(dc)),
         }
     )
+    if case["via"] == "mpas_radius":
+        # a source on a sphere of radius R: Cartesian coordinates and the supplied distances in its length unit
+        R = case["R"]
+        ds["dvEdge"] = (("nEdges",), np.array(dv) * R)
+        ds["dcEdge"] = (("nEdges",), np.array(dc) * R)
+        for j, ax in enumerate("xyz"):
+            ds[ax + "Cell"] = (("nCells",), np.array([R * c_[j] for c_ in cent]))
+            ds[ax + "Vertex"] = (("nVertices",), np.array([R * u[j] for u in units]))
+        ds.attrs["sphere_radius"] = R
+        if case.get("mpas_coords") == "xyz":
+            ds = ds.drop_vars(["lonCell", "latCell", "lonVertex", "latVertex"])
     info = {"edges": [list(e) for e in edges], "dv": dv, "dc": dc, "rings": rings, "cent": cent, "units": units, "cells_on_edge": cells_on_edge}
     return ds, info
 
@@ -235,7 +276,31 @@ def build(case):
         )
         units = [unit_of_lonlat(lo, la) for lo, la in zip(case["lon"], case["lat"])]
         return g, {"mesh": case["mesh"], "n_node": case["n_node"], "units": units, "nodes": case.get("nodes")}
+    if via == "prov":
+        # coordinate provenance and scale: face centres (= the centroid directions) supplied as lon/lat, as Cartesian
+        # vectors of length R, as both, or not at all; nodes optionally also as Cartesian vectors of length R
+        INT_DTYPE, FILL = hux.consts()
+        pv = case["prov"]
+        R = pv["R"]
+        units = [unit_of_lonlat(lo, la) for lo, la in zip(case["lon"], case["lat"])]
+        cent = [centroid_unit([units[n] for n in f]) for f in case["mesh"]]
+        kw = {}
+        if pv["centres"] in ("lonlat", "both"):
+            kw["face_lon"] = np.array([math.degrees(math.atan2(c_[1], c_[0])) for c_ in cent])
+            kw["face_lat"] = np.array([math.degrees(math.asin(max(-1.0, min(1.0, c_[2])))) for c_ in cent])
+        if pv["centres"] in ("xyz", "both"):
+            for j, nm in enumerate(("face_x", "face_y", "face_z")):
+                kw[nm] = np.array([R * c_[j] for c_ in cent])
+        if pv["node_xyz"]:
+            for j, nm in enumerate(("node_x", "node_y", "node_z")):
+                kw[nm] = np.array([R * u[j] for u in units])
+        g = ux.Grid.from_topology(
+            np.array(case["lon"], dtype=float), np.array(case["lat"], dtype=float), hux.pad_table(case["mesh"]), fill_value=FILL, **kw
+        )
+        return g, {"mesh": case["mesh"], "n_node": case["n_node"], "units": units, "nodes": case.get("nodes")}
     ds, info = mpas_dataset(case)
+    if via == "mpas_radius":
+        return ux.open_grid(ds), {"mesh": case["mesh"], "n_node": case["n_node"], "units": info["units"], "nodes": None}
     if via in ("mpas_primal_sentinel", "mpas_primal_truthful"):
         g = ux.open_grid(ds)
         o = {"mesh": case["mesh"], "n_node": case["n_node"], "units": info["units"], "nodes": case.get("nodes")}
@@ -313,10 +378,17 @@ def record_case(case):
     lead = case["lead"]
     npdt = {"int": np.int64, "float": np.float64}[case["dtype"]]
 
+    if case.get("sexp"):
+        rec["sexp"] = case["sexp"]
+
     def arr(rows_, n):
-        a = np.array(rows_, dtype=np.int64).reshape(lead + [n])
-        a = np.ascontiguousarray(np.moveaxis(a, -1, pos))  # the grid axis at its position in this layout
-        return (a / case["den"]).astype(npdt) if case["den"] != 1 else a.astype(npdt)
+        a = np.array(rows_, dtype=np.int64)
+        if case.get("sexp"):  # v * 2^e / den, exact
+            a = a.astype(float) * np.array([2.0**e for e in case["sexp"]])[:, None] / case["den"]
+        elif case["den"] != 1:
+            a = a / case["den"]
+        a = np.ascontiguousarray(np.moveaxis(a.reshape(lead + [n]), -1, pos))  # the grid axis at its position in this layout
+        return a.astype(npdt)
 
     # distances
     dist_dims = []
@@ -431,7 +503,7 @@ def numeric_stage(item, pairs, geos, case):
             if not dp and fd is not None and len(nd) == len(E) == len(fd) and all(len(p) == 2 for p in pairs):
                 rec["nd_sw"] = [close(x, y, TOL_DIST) for x, y in zip(nd, d_ff)]
                 rec["fd_sw"] = [close(x, y, TOL_DIST) for x, y in zip(fd, d_nn)]
-    else:
+    elif not rec.get("skip_nd"):
         rec["nd_ok"] = [False] * len(E)
     if fd is not None:
         if rec["via"] == "mpas_primal_sentinel":
@@ -456,7 +528,7 @@ def numeric_stage(item, pairs, geos, case):
 
     for key in ("ndiff", "fdiff"):
         if key in raw:
-            rec[key]["flat"] = [proj(x) for x in raw[key]["vals"].ravel().tolist()]  # the result in its own C order
+            rec[key]["flat"] = [projx(x) for x in raw[key]["vals"].ravel().tolist()]  # the result in its own C order
     if "grad" in raw:
         vals = raw["grad"]["vals"]
         dims = rec["grad"]["dims"]
@@ -473,9 +545,10 @@ def numeric_stage(item, pairs, geos, case):
             prod = vals * mul.reshape(shp)
             tol_b = np.broadcast_to(tol.reshape(shp), vals.shape).ravel().tolist()
             md_b = np.broadcast_to(mden.reshape(shp), vals.shape).ravel().tolist()
-            rec["grad"]["flat"] = [proj(x, t, maxden=int(m)) for x, t, m in zip(prod.ravel().tolist(), tol_b, md_b)]
+            exps = sorted(set(rec.get("sexp", [0])) | {0})
+            rec["grad"]["flat"] = [projs(x, exps, t, int(m)) for x, t, m in zip(prod.ravel().tolist(), tol_b, md_b)]
         else:
-            rec["grad"]["flat"] = [proj(x) for x in vals.ravel().tolist()]
+            rec["grad"]["flat"] = [projx(x) for x in vals.ravel().tolist()]
     if "gradn" in raw:
         vals = raw["gradn"]["vals"]
         canon = raw["gradn"]["canon"]
@@ -492,7 +565,7 @@ def numeric_stage(item, pairs, geos, case):
                     grow = gcanon[j].tolist()
                     nrm = math.sqrt(math.fsum(x * x for x in grow))
                     mx = max([abs(x) for x in grow] + [1e-300])
-                    propo[j] = all(close(x * nrm, y, 1e-9 * max(1.0, mx)) for x, y in zip(row, grow))
+                    propo[j] = all(close(x * nrm, y, 1e-9 * mx) for x, y in zip(row, grow))
                 indep[j] = j < len(singles) and rows_equal(row, singles[j].tolist(), 1e-9)
         tot = math.fsum(x * x for x in vals.ravel().tolist())
         rec["gradn"].update(
@@ -711,7 +784,10 @@ def record_hist(case):
             return False
         return bool(np.allclose(a, b, rtol=0.0, atol=1e-12, equal_nan=True)) if floats else bool(np.array_equal(a, b))
 
+    radius_root = case["root"].get("via") == "mpas_radius"
     for hi, g in enumerate(handles):
+        if radius_root and meta[hi]["kind"] != "slice":
+            continue  # the root (and its copy) report the source's own tables in the source's length unit: passthrough
         mesh_rows, _, _ = hux.table(g.face_node_connectivity)
         mesh = [[n for n in row if n >= 0] for row in mesh_rows]
         lon = [float(x) for x in g.node_lon.values]
@@ -729,10 +805,12 @@ def record_hist(case):
             pm, _, _ = hux.table(handles[meta[hi]["parent"]].face_node_connectivity)
             rec["parent_mesh"] = [[n for n in row if n >= 0] for row in pm]
             rec["sel_faces"] = meta[hi]["sel_faces"]
+        if radius_root:
+            rec["skip_nd"] = True  # a subset keeps the source's edge_node_distances (supplied, in its unit); the centre table is recomputed
         raw = {
             "units": [unit_of_lonlat(lo, la) for lo, la in zip(lon, lat)],
             "centres": None,
-            "edge_node_distances": [float(x) for x in obs[hi]["edge_node_distances"].ravel()],
+            "edge_node_distances": None if radius_root else [float(x) for x in obs[hi]["edge_node_distances"].ravel()],
             "edge_face_distances": [float(x) for x in obs[hi]["edge_face_distances"].ravel()],
         }
         items.append({"rec": rec, "raw": raw})
@@ -912,6 +990,46 @@ def fine_cases(rng, n, Ms):
     return out
 
 
+RADII = [1.0, 2.0, 6371229.0, 0.5]
+
+
+def prov_cases(rng, thorough):
+    """Coordinate provenance x scale for computed tables: centres not supplied / lon-lat / Cartesian of length R / both,
+    nodes optionally also Cartesian of length R; the distances are angles whatever the stored length."""
+    out = []
+    k = rng.randrange(12)
+    ents = catalog.entries(name=["cuboctahedron", "truncated_octahedron_split"] + (["cube", "rhombicuboctahedron"] if thorough else []), rot=0, cut=[0, 3])
+    for e in ents:
+        for ci, centres in enumerate(("none", "lonlat", "xyz", "both")):
+            for ri, R in enumerate(RADII):
+                if centres in ("none", "lonlat") and ri > 1 and not thorough:
+                    continue  # the radius only enters through Cartesian coordinates; keep two node_xyz variants
+                c = cat_case(e, "prov:%s:%s:R%g" % (catalog.eid(e), centres, R), k, rng, via="prov")
+                c["prov"] = {"centres": centres, "R": R, "node_xyz": (ci + ri) % 2 == 1}
+                out.append(c)
+                k += 1
+    return out
+
+
+def radius_hist_cases(rng):
+    """An MPAS-dialect source on a sphere of radius R (Cartesian coordinates and supplied distances in its length unit,
+    with or without lon/lat): its subsets recompute the centre table - in radians on the unit sphere."""
+    out = []
+    hists = [[["slice", 1, "high"]], [["read", 1, "edge_face_distances"], ["slice", 1, "high"]], [["op", 1, "gradient"], ["slice", 1, "mid"]], [["slice", 1, "low"], ["op", 2, "gradient"]]]
+    n = 0
+    for name, cut in (("cuboctahedron", 3), ("truncated_octahedron_split", 0)):
+        e = catalog.entries(name=name, rot=0, cut=cut)[0]
+        for R in RADII:
+            for coords in ("both", "xyz"):
+                root = cat_case(e, "root:%s/c%d:mpas_radius:R%g:%s" % (name, cut, R, coords), 0, rng, via="mpas_radius", shuffle=False, layout={"pos": 0, "lead": []})
+                root.pop("nodes", None)
+                root.update({"R": R, "mpas_coords": coords})
+                h = hists[n % len(hists)]
+                out.append({"id": "hist:radius:%d:%s/c%d:R%g:%s" % (n, name, cut, R, coords), "root": root, "hist": h, "prop": PROP})
+                n += 1
+    return out
+
+
 def attach_source_tables(cases):
     """The source's own edge numbering for sentinel MPAS cases (input materialisation, same code as mpas_dataset)."""
     for c in cases:
@@ -967,6 +1085,7 @@ def run(ctx):
     cases += planar_cases(rng, 30 if thorough else 8, 12 if thorough else 7)
     cases += mpas_cases(rng, thorough)
     cases += fine_cases(rng, 48 if thorough else 16, [10**3, 10**4, 10**5, 10**6])
+    cases += prov_cases(rng, thorough)
     attach_source_tables(cases)
 
     items = pmap(record_case, cases)
@@ -986,7 +1105,7 @@ def run(ctx):
     COVER.clear()
     hists, directed = gen_histories(ctx, 3)
     roots = hist_roots(rng)
-    hcases = hist_cases(rng, hists, directed, roots, None if thorough else 450)
+    hcases = hist_cases(rng, hists, directed, roots, None if thorough else 450) + radius_hist_cases(rng)
     nested = pmap(record_hist, hcases)
     hfailed, hfull = process_hist(ctx, hcases, nested)
     failed.update(hfailed)
